@@ -264,7 +264,13 @@ func execute(lines []string, drv *hx.Driver, seed uint64) (res outcome) {
 			if !ok || !validOp(op, args) {
 				continue
 			}
-			if op == "merge" || op == "fetch" { // a digest of another digest function is not executable
+			if op == "digests" && isLocalFile(ref, args) {
+				continue // a file of the action itself would be hashed: not the subject here
+			}
+			if op == "rename" && sameObject(ref, args, opts["alloc"] == "nfs") {
+				continue // two hard links of one leaf object: not modelled (C13)
+			}
+			if op == "merge" || op == "mmerge" || op == "fetch" || op == "mfetch" { // a digest of another digest function is not executable
 				if h, s, _ := untokDig(args[0]); !refDigestOK(&remoteexecution.Digest{Hash: h, SizeBytes: s}, r.hashLen) {
 					continue
 				}
@@ -288,9 +294,9 @@ func execute(lines []string, drv *hx.Driver, seed uint64) (res outcome) {
 						out = fmt.Sprintf("panic: %v", p)
 					}
 				}()
-				if op == "fetch" {
+				if op == "fetch" || op == "mfetch" {
 					h, s, _ := untokDig(args[0])
-					out, twice = r.execFetch(h, s)
+					out, twice = r.execFetch(h, s, op == "mfetch")
 				} else {
 					out = r.exec(op, args)
 				}
@@ -305,7 +311,7 @@ func execute(lines []string, drv *hx.Driver, seed uint64) (res outcome) {
 			switch {
 			case strings.HasPrefix(out, "panic"):
 				res.monitor = fmt.Sprintf("%s: %s", abbreviate(line), out)
-			case op == "fetch":
+			case op == "fetch" || op == "mfetch":
 				h, s, _ := untokDig(args[0])
 				want, good := refFetch(r.cas.blobs, r.hashLen, h, s)
 				f := strings.SplitN(out, " ", 3)
@@ -328,24 +334,80 @@ func execute(lines []string, drv *hx.Driver, seed uint64) (res outcome) {
 					}
 					res.flags["fetch-bad"]++
 				}
+			case op == "digests" && (strings.HasPrefix(out, "{") || strings.HasPrefix(out, "err:")):
+				// internal interface: whether it is answered depends on the directory having
+				// been initialised (compared with the model); what is answered must be right
+				cs, _ := decodeComps(args)
+				var target *refNode
+				if d, st := ref.walk(cs[:len(cs)-1]); st == "" {
+					target = d.children[cs[len(cs)-1]]
+				}
+				if target == nil || target.kind == "sym" || target.kind == "local" {
+					res.monitor = fmt.Sprintf("%s answered %s for a node that has no digests", abbreviate(line), clip(out))
+					break
+				}
+				seen := map[string]bool{}
+				good := true
+				if target.kind == "file" {
+					seen[casKeyOf(target.hash, target.size)] = true
+				} else {
+					good = refClosure(r.cas.blobs, r.hashLen, target.hash, target.size, seen)
+				}
+				keys := make([]string, 0, len(seen))
+				for k := range seen {
+					i := strings.LastIndexByte(k, '-')
+					keys = append(keys, k[:i]+":"+k[i+1:])
+				}
+				sortStrings(keys)
+				want := "{" + strings.Join(keys, ",") + "}"
+				switch {
+				case hit:
+					if out != "err:fault" {
+						res.monitor = fmt.Sprintf("%s hit a storage fault but returned %s", abbreviate(line), clip(out))
+					}
+				case good && !sameDigestSet(out, want):
+					res.monitor = fmt.Sprintf("%s returned %s, the digests below it are %s", abbreviate(line), clip(out), clip(want))
+				case !good && !strings.HasPrefix(out, "err:"):
+					res.monitor = fmt.Sprintf("%s returned %s although a Directory below it cannot be loaded", abbreviate(line), clip(out))
+				}
+				res.flags["containing-digests-answered"]++
 			case hit:
 				want := "EIO"
-				if op == "merge" {
+				if op == "merge" || op == "mmerge" {
 					want = "err:fault"
 				}
 				if out != want {
 					res.monitor = fmt.Sprintf("%s hit an injected storage fault but returned %q (want %s)", abbreviate(line), out, want)
 				}
+			case op == "digests":
+				// unhandled / ENOENT / ...: only compared with the model
 			default:
+				overCAS := op == "rename" && isCASFile(ref, args[1:][mustAtoi(args[0]):])
+				lazyDir := op == "rename" && r.isUntouchedDir(ref, args)
 				want := refExec(ref, r.cas.blobs, r.hashLen, op, args)
 				if out != want {
 					res.monitor = fmt.Sprintf("%s returned %q; the tree named by the root digest (with the local modifications so far) demands %q", abbreviate(line), out, want)
 				}
 				switch {
-				case op == "merge" && out == "ok":
+				case (op == "merge" || op == "mmerge") && out == "ok":
 					res.flags["merge-ok"]++
-				case op == "merge" && strings.HasPrefix(out, "err:"):
+					if op == "mmerge" {
+						res.flags["merge-with-access-monitor"]++
+					}
+				case (op == "merge" || op == "mmerge") && strings.HasPrefix(out, "err:"):
 					res.flags["merge-rejected"]++
+				case op == "rename" && out == "ok":
+					res.flags["local-modification"]++
+					res.flags["rename-ok"]++
+					if overCAS {
+						res.flags["rename-over-cas-file"]++
+					}
+					if lazyDir {
+						res.flags["rename-of-unloaded-directory"]++
+					}
+				case op == "link" && out == "ok":
+					res.flags["local-modification"]++
+					res.flags["link-ok"]++
 				case out == "EIO":
 					res.flags["bad-directory-accessed"]++
 				case (op == "openw" || op == "opentrunc" || op == "setsize") && out == "EACCES",
@@ -398,7 +460,30 @@ func isCASFile(ref *refNode, args []string) bool {
 
 func validOp(op string, args []string) bool {
 	switch op {
-	case "merge", "fetch":
+	case "rename", "link":
+		p1, x1, p2, x2, ok := splitTwoPaths(args)
+		if !ok {
+			return false
+		}
+		for _, c := range append(append([]string{x1, x2}, p1...), p2...) {
+			if !refValidName(c) {
+				return false
+			}
+		}
+		if op == "rename" { // moving a directory below itself: not modelled (TODO in the Go code)
+			old := append(append([]string(nil), p1...), x1)
+			if len(p2) >= len(old) {
+				inside := true
+				for i := range old {
+					inside = inside && p2[i] == old[i]
+				}
+				if inside {
+					return false
+				}
+			}
+		}
+		return true
+	case "merge", "mmerge", "fetch", "mfetch":
 		if len(args) != 1 {
 			return false
 		}
@@ -422,7 +507,7 @@ func validOp(op string, args []string) bool {
 		}
 		args = args[2:]
 		fallthrough
-	case "lookup", "openw", "opentrunc", "setsize", "alloc", "write", "remove", "create", "mkdir":
+	case "lookup", "digests", "openw", "opentrunc", "setsize", "alloc", "write", "remove", "create", "mkdir":
 		cs, ok := decodeComps(args)
 		if !ok || len(cs) == 0 {
 			return false
@@ -486,4 +571,61 @@ func refDirPaths(root *refNode, limit int) [][]string {
 		}
 	}
 	return out
+}
+
+func mustAtoi(s string) int {
+	n, _ := strconv.Atoi(s)
+	return n
+}
+
+// isUntouchedDir: the old entry of a rename is a CAS directory (the harness cannot
+// see whether it has been loaded; counted for the histogram only).
+func (r *rig) isUntouchedDir(ref *refNode, args []string) bool {
+	p1, x1, _, _, ok := splitTwoPaths(args)
+	if !ok {
+		return false
+	}
+	d, st := ref.walk(p1)
+	if st != "" {
+		return false
+	}
+	c, ok := d.children[x1]
+	return ok && c.kind == "dir" && c.hash != ""
+}
+
+func isLocalFile(ref *refNode, args []string) bool {
+	cs, ok := decodeComps(args)
+	if !ok || len(cs) == 0 {
+		return false
+	}
+	d, st := ref.walk(cs[:len(cs)-1])
+	if st != "" {
+		return false
+	}
+	c, ok := d.children[cs[len(cs)-1]]
+	return ok && c.kind == "local"
+}
+
+// sameDigestSet compares two rendered digest sets ("{h:s,...}") as sets; sizes are
+// compared numerically by both sides' sort, so only the membership matters here.
+func sameDigestSet(a, b string) bool {
+	split := func(s string) map[string]bool {
+		m := map[string]bool{}
+		for _, x := range strings.Split(strings.Trim(s, "{}"), ",") {
+			if x != "" {
+				m[x] = true
+			}
+		}
+		return m
+	}
+	ma, mb := split(a), split(b)
+	if len(ma) != len(mb) {
+		return false
+	}
+	for k := range ma {
+		if !mb[k] {
+			return false
+		}
+	}
+	return true
 }
